@@ -1097,7 +1097,7 @@ Proof.
   rewrite andb_true_iff, prep_eqb_eq, IH. split; [intros [? ?]; congruence|intro H; inversion H; auto].
 Qed.
 
-Notation klin := (linearizable_complete kst (list prim) (list prep) kstep).
+Notation klin := (linearizable_complete tst (list cmd) (list prep) tkstep).
 
 Lemma lin_check_sound_lemma : forall init h, lin_check init h = true -> klin init h.
 Proof. intros init h. apply lin_check_gen_sound. exact preps_eqb_eq. Qed.
